@@ -458,6 +458,23 @@ static void after_op(World &w, const Op &op, int rc) {
             w.fail("C04.transform", "deleting " + w.del_victim + (rc == 1 ? " threw" : " returned false") + " but the document changed at " + where);
         }
         if (!w.del_victim.empty() && rc == 0 && w.del_result) {
+            // C03: deleting one entity leaves every other one enumerated where it was (the survivors' relative order is checked above)
+            {
+                std::set<std::string> gone;
+                if (collect_subtree_ids(w.last, w.del_victim, gone)) {
+                    std::vector<std::pair<std::string, std::string> > ra, rb;
+                    collect_records(w.last, "", ra); collect_records(doc, "", rb);
+                    std::set<std::pair<std::string, std::string> > nowset(rb.begin(), rb.end());
+                    for (auto &pr : ra) {
+                        if (gone.count(pr.second)) continue;
+                        bool under_gone = false;      // records nested below a deleted one (features of a deleted tag, ...) go with it
+                        for (auto &g : ra) if (gone.count(g.second) && pr.first.size() > g.first.size() && pr.first.compare(0, g.first.size(), g.first) == 0 && pr.first[g.first.size()] == '/') { under_gone = true; break; }
+                        if (under_gone) continue;
+                        if (!nowset.count(pr)) { w.fail("C03.order", "deleting " + w.del_victim + " made another entity disappear from its container: " + pr.first + " (" + pr.second + ")"); break; }
+                    }
+                    w.cnt.inc("delete.survivors_checked");
+                }
+            }
             Node expect = w.last;
             std::set<std::string> ids;
             if (collect_subtree_ids(expect, w.del_victim, ids)) {
